@@ -22,7 +22,10 @@ var entries = []string{"Handle", "Handle-presrc", "HandleX", "ControlFrameHandle
 	"ControlFrameHandler-intermediate-text", "ReadData-intermediate-text",
 	// the application read the frame itself and unmasked it in place (ws.UnmaskFrameInPlace clears Header.Masked):
 	// the header handed to the handler says "not masked" although the endpoint is a server
-	"Handle-unmasked-header"}
+	"Handle-unmasked-header",
+	// the control frame sits between the fragments of a message the application does NOT want: skipped by the
+	// opcode-filtered read helpers, or thrown away with Reader.Discard - it is answered all the same
+	"ReadText-skipping-binary", "Reader-Discard"}
 
 func peerOf(side ref.Side) ref.Side {
 	if side == ref.SideServer {
@@ -123,6 +126,46 @@ func runControl(c *mon.C, entry string, side ref.Side, op byte, payload []byte, 
 		}
 		if e == nil && string(data) != "a\xc3\xa9d" {
 			return nil, fmt.Errorf("harness: surrounding message corrupted: %q", data)
+		}
+		return nil, e
+	case "ReadText-skipping-binary", "Reader-Discard":
+		mk := func(op byte, fin bool, p []byte) []byte {
+			fh := ref.Header{Fin: fin, Op: op, Masked: h.Masked, Mask: h.Mask}
+			return ref.Frame{H: fh, Payload: p}.Encode()
+		}
+		stream := append(append(mk(ref.OpBinary, false, []byte("unwanted-1")), frame...), mk(ref.OpCont, true, []byte("unwanted-2"))...)
+		stream = append(stream, mk(ref.OpText, true, []byte("wanted"))...)
+		if entry == "Reader-Discard" {
+			rd := &wsutil.Reader{Source: xport.NewChunker(stream, plan), State: st, OnIntermediate: wsutil.ControlFrameHandler(dst, hst)}
+			if _, e := rd.NextFrame(); e != nil {
+				return nil, fmt.Errorf("harness: NextFrame: %v", e)
+			}
+			if k := len(payload) % 3; k > 0 {
+				io.ReadFull(rd, make([]byte, k*5)) // part of the first fragment, or exactly all of it
+			}
+			if e := rd.Discard(); e != nil {
+				return nil, e
+			}
+			hdr, e := rd.NextFrame()
+			if e != nil {
+				return nil, e
+			}
+			data, e := io.ReadAll(rd)
+			if e == nil && (hdr.OpCode != ws.OpText || string(data) != "wanted") {
+				return nil, fmt.Errorf("harness: message after the discarded one corrupted: op=%x %q", hdr.OpCode, data)
+			}
+			return nil, e
+		}
+		rw := xport.RW{Reader: xport.NewChunker(stream, plan), Writer: dst}
+		var data []byte
+		var e error
+		if side == ref.SideServer {
+			data, e = wsutil.ReadClientText(rw)
+		} else {
+			data, e = wsutil.ReadServerText(rw)
+		}
+		if e == nil && string(data) != "wanted" {
+			return nil, fmt.Errorf("harness: message after the skipped one corrupted: %q", data)
 		}
 		return nil, e
 	case "HandleControlMessage":
@@ -585,7 +628,7 @@ func main() {
 	mon.Main(&mon.Spec{
 		Property: "C08",
 		Level:    "exploration",
-		Rule: "cases: ping and pong x every payload length 0..125 x both sides x 11 entry points (ControlHandler.Handle given the header of a frame the application already unmasked in place; ControlFrameHandler as OnIntermediate and the ReadData helpers also between the halves of a character split across two fragments of a TEXT message under UTF-8 checking; ControlHandler.Handle with masked source / pre-unmasked source, HandlePing/Pong/Close, ControlFrameHandler in-line and as OnIntermediate, HandleControlMessage and its Client/Server shortcuts, ReadData in-line) under varied source chunk plans; 0-9 pings/pongs (payloads 0..125) in front of and between the 2-4 fragments of one message collected by ReadMessage and answered afterwards with HandleControlMessage (every collected payload intact when answered, one echoing pong per ping); close: all 65536 codes x valid/invalid reasons x both sides (through Handle in quick, spread over all entry points in thorough) plus empty, 1-byte, longest-reason and 29 boundary codes through every entry point; " +
+		Rule: "cases: ping and pong x every payload length 0..125 x both sides x 13 entry points (ControlHandler.Handle given the header of a frame the application already unmasked in place; ControlFrameHandler as OnIntermediate and the ReadData helpers also between the halves of a character split across two fragments of a TEXT message under UTF-8 checking; ControlHandler.Handle with masked source / pre-unmasked source, HandlePing/Pong/Close, ControlFrameHandler in-line and as OnIntermediate, HandleControlMessage and its Client/Server shortcuts, ReadData in-line) under varied source chunk plans; 0-9 pings/pongs (payloads 0..125) in front of and between the 2-4 fragments of one message collected by ReadMessage and answered afterwards with HandleControlMessage (every collected payload intact when answered, one echoing pong per ping); close: all 65536 codes x valid/invalid reasons x both sides (through Handle in quick, spread over all entry points in thorough) plus empty, 1-byte, longest-reason and 29 boundary codes through every entry point; " +
 			"ControlWriter: both constructors x 8 buffers x both sides x 3 opcodes x ALL write-size sequences of <= 4 writes over {0,1,60,62,63,64,124,125,126,200} x flush positions. Replies are parsed by the reference parser and checked against the peer's header rules, ws.CheckHeader, the close-payload classes and the expected content; distinct = (kind, entry, side, length/plan/code range).",
 		Assumptions: []string{"for codes the statement leaves open (1012-1014, >= 5000) either echo or 1002 is accepted but reply and returned error must agree", "a ControlWriter is reusable after Flush (limit counted per control frame)"},
 		Subs:        []mon.Sub{subPingPong(), subCloseAllCodes(), subCloseEntries(), subControlWriter(), subInterleaved()},
